@@ -139,7 +139,9 @@ def make_world(eng, lang, nvars=2, with_nested=True):
     def generate_expr(expr_type=None, only_leaves=False, subtype=True, exclude_var=False, gen_bottom=False,
                       sam_coercion=False):
         w.requests.append(dict(type=expr_type, subtype=subtype, gen_bottom=gen_bottom, exclude_var=exclude_var,
-                               only_leaves=only_leaves, depth=g.depth))
+                               only_leaves=only_leaves, depth=g.depth, namespace=tuple(g.namespace),
+                               java_lambda=bool(g._inside_java_lambda),
+                               visible={n: v.get_type() for n, v in g.context.get_vars(g.namespace).items()}))
         return Hole(None if gen_bottom else expr_type, w.requests[-1])
     w.real_generate_expr = g.generate_expr
     g.generate_expr = generate_expr
@@ -215,7 +217,7 @@ def run_unit(eng, lang, unit, **kw):
         # the assigned value is requested at the entry depth, but for a non-void type: the dispatcher selects
         # gen_assignment for the void type only, every other generator deepens
         slack = [r for r in slack if r['type'] is None or r['type'] == w.f.get_void_type()]
-    if unit not in ('generate_expr', 'gen_variable_decl', 'select_superclass') and res is not None:
+    if unit not in ('generate_expr', 'gen_variable_decl', 'select_superclass', 'gen_lambda', 'gen_is_expr') and res is not None:
         out.append(('C18', Ob('recursion-progress|%s' % unit, not slack,
                               dict(case, requests_at_entry_depth=[str(r['type']) for r in slack][:3]))))
     if unit == 'gen_new' and depth0 + 1 > 2 * max_depth:
@@ -571,6 +573,96 @@ def c_gen_func_call(w, etype, subtype, res, case):
     return out
 
 
+def u_gen_lambda(w, etype, subtype):
+    g = w.g
+    w.entry = dict(namespace=tuple(g.namespace), depth=g.depth, java_lambda=bool(g._inside_java_lambda))
+    p = ast.ParameterDeclaration('lp', w.INT)
+    g._gen_func_params = lambda: [p]
+    g._get_func_ret_type = lambda params, et, not_void=False: et
+    w.body_state = {}
+
+    def body(ret_type):
+        w.body_state = dict(namespace=tuple(g.namespace), java_lambda=bool(g._inside_java_lambda), depth=g.depth,
+                            params_visible='lp' in g.context.get_vars(g.namespace))
+        return Hole(ret_type, dict(type=ret_type, subtype=True, gen_bottom=False, exclude_var=False, only_leaves=False))
+    g._gen_func_body = body
+    return g.gen_lambda(etype=etype)
+
+
+def c_gen_lambda(w, etype, subtype, res, case):
+    out = []
+    g = w.g
+    ok_shape = isinstance(res, ast.Lambda)
+    out.append(('C05', Ob('gen_lambda|returns-lambda', ok_shape, case)))
+    if not ok_shape:
+        return out
+    e, b = w.entry, w.body_state
+    case = dict(case, body_namespace=list(b.get('namespace', ())), shadow_name=res.name)
+    out.append(('C05', Ob('gen_lambda|body-generated-in-its-own-scope', b.get('namespace') == e['namespace'] + (res.name,), case)))
+    out.append(('C05', Ob('gen_lambda|parameters-visible-in-the-body', bool(b.get('params_visible')), case)))
+    out.append(('C05', Ob('gen_lambda|java-capture-rule-active-in-the-body', b.get('java_lambda') == (w.lang == 'java'), case)))
+    out.append(('C05', Ob('gen_lambda|scope-and-capture-flag-restored', tuple(g.namespace) == e['namespace']
+                          and bool(g._inside_java_lambda) == e['java_lambda'], case)))
+    out.append(('C05', Ob('gen_lambda|registered-under-its-shadow-name', g.context.get_lambda(e['namespace'], res.name) is res, case)))
+    sig = res.signature
+    ok = isinstance(sig, tp.ParameterizedType) and len(sig.type_args) == 2 and \
+        w.ref.snap(sig.type_args[0]) == w.ref.snap(w.INT) and w.ref.snap(sig.type_args[1]) == w.ref.snap(etype)
+    out.append(('C01', Ob('gen_lambda|signature-is-parameter-types-then-result', ok, dict(case, signature=str(sig)))))
+    out.append(('C01', Ob('gen_lambda|body-of-the-declared-result-type', isinstance(res.body, Hole) and
+                          w.ref.snap(res.body.t) == w.ref.snap(res.ret_type), case)))
+    out.append(('C18', Ob('gen_lambda|body-deeper-than-entry', b.get('depth', 0) > e['depth'], case)))
+    return out
+
+
+def u_gen_is_expr(w, etype, subtype):
+    return w.g.gen_is_expr(etype, only_leaves=True, subtype=subtype)
+
+
+def c_gen_is_expr(w, etype, subtype, res, case):
+    out = []
+    g = w.g
+    if isinstance(res, Hole):
+        out.append(('C01', Ob('gen_is_expr|fallback-keeps-type', res.req['type'] is etype, case)))
+        return out
+    ok_shape = isinstance(res, ast.Conditional) and isinstance(res.cond, ast.Is)
+    out.append(('C01', Ob('gen_is_expr|shape', ok_shape, case)))
+    if not ok_shape:
+        return out
+    var = res.cond.lexpr if hasattr(res.cond, 'lexpr') else res.cond.children()[0]
+    cast_t = res.cond.rexpr if hasattr(res.cond, 'rexpr') else None
+    r = resolve(w, var.name, g.namespace)
+    out.append(('C05', Ob('gen_is_expr|tested-variable-resolves', r is not None, dict(case, variable=var.name))))
+    if r is None:
+        return out
+    d = r[1]
+    case = dict(case, variable=var.name, declared=str(d.get_type()), cast_to=str(cast_t))
+    out.append(('C05', Ob('gen_is_expr|only-final-explicitly-typed-locals-are-smart-cast',
+                          isinstance(d, ast.VariableDeclaration) and d.is_final and d.var_type is not None, case)))
+    if cast_t is not None:
+        out.append(('C01', Ob('gen_is_expr|cast-type-is-a-strict-subtype', assignable(w, cast_t, d.get_type())
+                              and w.ref.snap(cast_t) != w.ref.snap(d.get_type()), case)))
+    reqs = w.requests
+    tb = [q for q in reqs if q['namespace'][-1:] == ('true_block',)]
+    fb = [q for q in reqs if q['namespace'][-1:] == ('false_block',)]
+    out.append(('C05', Ob('gen_is_expr|one-request-per-branch-in-its-own-scope', len(tb) == 1 and len(fb) == 1, case)))
+    if tb and cast_t is not None:
+        seen = tb[0]['visible'].get(var.name)
+        out.append(('C05', Ob('gen_is_expr|variable-has-the-cast-type-in-the-true-branch',
+                              seen is not None and w.ref.snap(seen) == w.ref.snap(cast_t), case)))
+    if fb:
+        seen = fb[0]['visible'].get(var.name)
+        out.append(('C05', Ob('gen_is_expr|variable-keeps-its-type-in-the-false-branch',
+                              seen is not None and w.ref.snap(seen) == w.ref.snap(d.get_type()), case)))
+    now = g.context.get_vars(g.namespace).get(var.name)
+    out.append(('C05', Ob('gen_is_expr|smart-cast-does-not-leak', now is d and tuple(g.namespace) == r[0] or
+                          (now is d), dict(case, after=str(now.get_type()) if now is not None else None))))
+    leftover = g.context.get_vars(tuple(g.namespace) + ('true_block',), only_current=True)
+    out.append(('C05', Ob('gen_is_expr|virtual-declaration-removed', var.name not in leftover, case)))
+    for q in tb + fb:
+        out.append(('C01', Ob('gen_is_expr|branch-requests-the-expected-type', q['type'] is etype, case)))
+    return out
+
+
 def u_select_superclass(w, etype, subtype):
     g = w.g
     g.namespace = G + ('Newcls',)
@@ -610,16 +702,19 @@ def c_select_superclass(w, etype, subtype, res, case):
 
 UNITS = dict(gen_variable=u_gen_variable, gen_assignment=u_gen_assignment, gen_conditional=u_gen_conditional,
              gen_new=u_gen_new, gen_variable_decl=u_gen_variable_decl, generate_expr=u_generate_expr,
-             gen_field_access=u_gen_field_access, gen_func_call=u_gen_func_call, select_superclass=u_select_superclass)
+             gen_field_access=u_gen_field_access, gen_func_call=u_gen_func_call, select_superclass=u_select_superclass, gen_lambda=u_gen_lambda,
+             gen_is_expr=u_gen_is_expr)
 CHECKS = dict(gen_variable=c_gen_variable, gen_assignment=c_gen_assignment, gen_conditional=c_gen_conditional,
               gen_new=c_gen_new, gen_variable_decl=c_gen_variable_decl, generate_expr=c_generate_expr,
-              gen_field_access=c_gen_field_access, gen_func_call=c_gen_func_call, select_superclass=c_select_superclass)
+              gen_field_access=c_gen_field_access, gen_func_call=c_gen_func_call, select_superclass=c_select_superclass, gen_lambda=c_gen_lambda,
+              gen_is_expr=c_gen_is_expr)
 FUNCS = dict(gen_variable=[Generator.gen_variable], gen_assignment=[Generator.gen_assignment, Generator._get_assignable_vars,
                                                                      Generator._get_classes_with_assignable_fields],
              gen_conditional=[Generator.gen_conditional], gen_new=[Generator.gen_new, Generator._get_subclass],
              gen_variable_decl=[Generator.gen_variable_decl], generate_expr=[Generator.generate_expr, Generator.get_generators],
              gen_field_access=[Generator.gen_field_access, Generator._get_matching_objects, Generator._get_matching_class],
-             select_superclass=[Generator._select_superclass],
+             select_superclass=[Generator._select_superclass], gen_lambda=[Generator.gen_lambda],
+             gen_is_expr=[Generator.gen_is_expr, Generator._filter_subtypes],
              gen_func_call=[Generator._gen_func_call, Generator._get_matching_function_declarations,
                             Generator._get_matching_objects, Generator._is_sigtype_compatible])
 
